@@ -92,7 +92,9 @@ def convert_output_data(obj, limit_func, engine, rec=None):
                 value, limit_func, engine, rec)
         return result
     elif isinstance(obj, SetType):
-        set_type = list if convert_sets_to_lists(engine) else set
+        set_type = list if (
+            convert_sets_to_lists(engine) or
+            isinstance(obj, collections.abc.MappingView)) else set
         return set_type(rec(t, limit_func, engine, rec)
                         for t in limit_func(obj))
     elif isinstance(obj, (tuple, list)):
